@@ -39,6 +39,7 @@ from zcsim import ops
 from zcsim import schemagen as G
 from zcsim import textfaults as TF
 from zcsim.world import SimWorld
+from zcsim.world import pkg_file_key
 
 ID = "C06"
 LEVEL = "exploration"
@@ -71,6 +72,17 @@ REAL_STUB = {
 }
 
 SCHEMA_URL = "file:///sim/schema/s.xml"
+# variant import-in-fragment: an extension point of the schema that only a
+# %import-ed component fills
+IMPORT_SLOT = ('  <abstracttype name="zzabs"/>\n'
+               '  <multisection type="zzabs" name="*" attribute="zzitems"/>\n')
+IMPORT_COMPONENT = """<component>
+  <sectiontype name="zzimp" implements="zzabs">
+    <key name="zv" datatype="integer" default="1"/>
+  </sectiontype>
+</component>
+"""
+IMPORT_PACKAGES = {"zcsim_p0": {"is_package": True}}
 _INC = re.compile(r"^\s*%include\s+(\S.*?)\s*$")
 
 OPEN_KINDS = ["open-enoent", "open-eacces", "open-http-404", "open-http-500",
@@ -258,7 +270,8 @@ def generate(rng, tier, index):
     variant = rng.choice(["plain", "plain", "plain", "invalid", "invalid",
                           "torn-cut", "torn-cut", "missing-fragment",
                           "open-fault", "define-conflict", "define-repeat",
-                          "include-twice", "include-via-define"])
+                          "include-twice", "include-via-define",
+                          "import-in-fragment"])
     plan = {"prop": ID, "schema_xml": xml, "top": uni["top"],
             "variant": variant, "fault": None}
     res = TF.res_texts(uni)
@@ -270,6 +283,33 @@ def generate(rng, tier, index):
             plan["variant"] = "plain"
     elif variant in ("define-conflict", "define-repeat"):
         res = _redefine(rng, uni, res, variant == "define-conflict")
+    elif variant == "import-in-fragment":
+        # '%import' is read inside a fragment; sections of the imported type
+        # follow later in reading order, after the include has returned (and
+        # possibly in a sibling fragment): what a fragment imports stays
+        # imported, exactly as if its lines stood in the includer
+        frs = sorted(u for u in res if u != uni["top"])
+        if frs and "</schema>" in xml:
+            plan["schema_xml"] = xml = xml.replace(
+                "</schema>", IMPORT_SLOT + "</schema>")
+            res = {k: list(v) for k, v in res.items()}
+            u = rng.choice(frs)
+            res[u].insert(rng.randint(0, len(res[u])), rng.choice(
+                ["%import zcsim_p0", "  %import zcsim_p0",
+                 "%import ZCSIM_P0".replace("ZCSIM_P0", "zcsim_p0")]))
+            top = res[uni["top"]]
+            for k in range(rng.randint(1, 2)):
+                top.append(rng.choice(["<zzimp zzn%d/>", "<zzimp zzn%d>\n"
+                                       "  zv 7\n</zzimp>",
+                                       "<ZZIMP zzn%d />"]) % k)
+            if rng.random() < 0.3:
+                # and once more before the include is reached (use before
+                # import: rejected in both layouts) -- only sometimes
+                top.insert(0, "<zzimp zzearly/>")
+            res[uni["top"]] = [x for t in top for x in t.split("\n")]
+            plan["imports"] = True
+        else:
+            plan["variant"] = "plain"
     elif variant == "include-via-define":
         r = _via_define(rng, uni, res)
         if r is None:
@@ -333,7 +373,8 @@ def generate(rng, tier, index):
 # execution
 
 def _to_real(s, scratch):
-    return s.replace("file:///sim/", "file://" + scratch + "/sim/")
+    return s.replace("file:///sim/", "file://" + scratch + "/sim/").replace(
+        "file:/sim/", "file:" + scratch + "/sim/")
 
 
 def execute(plan):
@@ -432,7 +473,9 @@ def _execute(plan, out, store, decoys_in, top, real, report_plan=None):
     cut_store.update(store)
     if plan.get("missing"):
         cut_store.pop(plan["missing"], None)
-    with SimWorld(realfs=bool(real), scratch=real[0] if real else None) as w:
+    with SimWorld(realfs=bool(real), scratch=real[0] if real else None,
+                  packages=IMPORT_PACKAGES if plan.get("imports") else None
+                  ) as w:
         if real:
             os.chdir(real[1])
             out["probes"]["realfs-with-cwd-decoys"] = 1
@@ -444,6 +487,9 @@ def _execute(plan, out, store, decoys_in, top, real, report_plan=None):
             return out
         schema = so["schema"]
         w.store = {}
+        if plan.get("imports"):
+            w.store[pkg_file_key("zcsim_p0")] = IMPORT_COMPONENT
+            cut_store[pkg_file_key("zcsim_p0")] = IMPORT_COMPONENT
         w.begin_op("load-inlined")
         oi = ops.config_outcome(lambda: ZConfig.loadConfigFile(
             schema, io.StringIO(inlined), top))
@@ -484,7 +530,7 @@ def _execute(plan, out, store, decoys_in, top, real, report_plan=None):
             raise RuntimeError("inliner left an include: %r" % inlined)
         if variant in ("plain", "invalid", "define-conflict",
                        "define-repeat", "include-twice",
-                       "include-via-define"):
+                       "include-via-define", "import-in-fragment"):
             if oi["ok"] != oc["ok"]:
                 violation("outcome-differs",
                           "inlined text %s but cut layout %s"
